@@ -3,10 +3,12 @@ package main
 import (
 	"flag"
 	"fmt"
+	"go/ast"
 	"os"
 	"runtime/debug"
 	"sort"
 	"strconv"
+	"strings"
 	"time"
 )
 
@@ -52,7 +54,52 @@ func main() {
 	tier := flag.String("tier", envOr("VERIF_TIER", "quick"), "quick|thorough")
 	list := flag.Bool("list", false, "list registered properties")
 	flag.BoolVar(&verbose, "v", false, "print every obligation")
+	dump := flag.String("dumpkeys", "", "development aid: module:pkg:recv:func - print the canonical keys of the conditions and assignments of a function")
 	flag.Parse()
+	if *dump != "" {
+		parts := strings.Split(*dump, ":")
+		l, err := newLoader("")
+		if err != nil || len(parts) != 4 {
+			fmt.Println("usage: -dumpkeys module:pkg:recv:func", err)
+			os.Exit(2)
+		}
+		defer l.Close()
+		p, err := l.Load(parts[0])
+		if err != nil {
+			fmt.Println(err)
+			os.Exit(2)
+		}
+		f := p.CFGOf(parts[1], parts[2], parts[3])
+		if f == nil {
+			fmt.Println("function not found")
+			os.Exit(2)
+		}
+		for _, b := range f.G.Blocks {
+			if !b.Live {
+				continue
+			}
+			fmt.Printf("block %d (%s) succs %d\n", b.Index, b.Kind, len(b.Succs))
+			for _, n := range b.Nodes {
+				switch x := n.(type) {
+				case ast.Expr:
+					fmt.Printf("   expr  %s\n", exprKey(x))
+				case *ast.AssignStmt:
+					fmt.Printf("   %s %s %s\n", exprKey(x.Lhs[0]), x.Tok, exprKey(x.Rhs[0]))
+				case *ast.ExprStmt:
+					fmt.Printf("   stmt  %s\n", exprKey(x.X))
+				case *ast.ReturnStmt:
+					var rs []string
+					for _, e := range x.Results {
+						rs = append(rs, exprKey(e))
+					}
+					fmt.Printf("   return %s\n", strings.Join(rs, ", "))
+				default:
+					fmt.Printf("   %T\n", n)
+				}
+			}
+		}
+		return
+	}
 	if *list {
 		var ids []string
 		for id := range registry {
